@@ -151,7 +151,7 @@ def suites(tier, seed):
     cases = []
     for i in range(n):
         nfiles = rnd.randint(1, 3)
-        files, feats, linemap = {}, [], {}
+        files, feats, linemap, fnames = {}, [], {}, {}
         dup = (i % 4 == 1)
         eid, sid = rc.Ids(), rc.Ids()
         for k in range(nfiles):
@@ -168,7 +168,9 @@ def suites(tier, seed):
                         ex["tags"] = []
             runprog.normalize_program({"features": [f]})
             text, info = c10.render_doc(f, rnd)
-            fname = "F%d.feature" % f["id"]
+            # feature file names as projects write them: plain, with a '#' (issue numbers), with a blank
+            fname = ["F%d.feature", "F%d.feature", "F%d.feature", "issue#%d.feature", "F%d.feature", "issue %d #x.feature"][i % 6] % f["id"]
+            fnames[f["id"]] = fname
             for sc in info["scenarios"]:
                 linemap["%s:%d" % (fname, sc["line"])] = sc["name"]
             if dup:
@@ -188,7 +190,7 @@ def suites(tier, seed):
         prog["cfg"]["faults"] = [["before_scenario", nm] for nm in hooknames]
         inv = {v: k for k, v in linemap.items()}
         hookfail = [inv[nm] for nm in hooknames if nm in inv]
-        cases.append({"files": files, "order": ["F%d.feature" % f["id"] for f in feats], "hookfail": hookfail, "linemap": linemap, "stale": (i % 7 == 0) or rnd.random() < 0.2, "prog": prog,
+        cases.append({"files": files, "order": [fnames[f["id"]] for f in feats], "hookfail": hookfail, "linemap": linemap, "stale": (i % 7 == 0) or rnd.random() < 0.2, "prog": prog,
                       "dry_run": prog["cfg"]["dry_run"]})
     return [{"name": "histories", "cases": cases, "impl": impl_history, "oracle": oracle,
              "nontrivial": lambda c, o: o["file_exists"] and 0 < len([1 for x in o["first"] if x[2] in FAILING]) < len(o["first"]),
